@@ -838,8 +838,12 @@ def class_sweep(payload):
                         buf = LocalBuf.new(64, 1)
                         args = (buf,) if argkind == 'buf' else (FFT.kr(buf, WhiteNoise.ar()),)
                     n0 = len(_libsc3.main._current_synthdef._children)
-                    getattr(cls, ctor)(*args)
+                    x = getattr(cls, ctor)(*args)
                     made['units'] = [type(c).__name__ for c in _libsc3.main._current_synthdef._children[n0:]]
+                    # keep the unit alive (side-effect-free units nothing references are dropped)
+                    y = x[0] if isinstance(x, list) and x else x
+                    if isinstance(y, ugn.UGen) and y.rate in ('audio', 'control', 'scalar') and y._num_outputs() > 0:
+                        (Out.ar if y.rate == 'audio' else Out.kr)(1, y)
                     made['objs'] = [c for c in _libsc3.main._current_synthdef._children[n0:] if type(c).__name__ == name]
                     Out.ar(0, SinOsc.ar(440))
                 try:
